@@ -2,6 +2,7 @@
 from vlib import unit
 from vlib.engine import Case
 from checks import side_common as sc
+from checks import c20_race
 
 MUT = ("store", "store_atomic", "set_zero", "set_zero_atomic", "cmpxchg", "fetch_add", "fetch_sub", "fetch_and",
        "fetch_or", "fetch_update")
@@ -23,19 +24,23 @@ def geo_of(line):
 
 class Spec(unit.UnitSpec):
     pid = "C20"
-    modules = ["MmtkModel.Props.C20"]
+    modules = ["MmtkModel.Props.C20"] + c20_race.MODULES
+    extra_part = staticmethod(c20_race.part)
     theorems = ["Mmtk.SideMeta.lshift_eq", "Mmtk.SideMeta.field_position", "Mmtk.SideMeta.field_disjoint",
                 "Mmtk.SideMeta.load_eq_absArr",
                 "Mmtk.SideMeta.load_refines", "Mmtk.SideMeta.store_refines", "Mmtk.SideMeta.storeAtomic_refines",
                 "Mmtk.SideMeta.setZero_refines", "Mmtk.SideMeta.cmpxchg_refines", "Mmtk.SideMeta.fetchAdd_refines",
                 "Mmtk.SideMeta.fetchSub_refines", "Mmtk.SideMeta.fetchAnd_refines", "Mmtk.SideMeta.fetchOr_refines",
                 "Mmtk.SideMeta.fetchUpdate_refines", "Mmtk.SideMeta.step_refines", "Mmtk.SideMeta.history_refines",
-                "Mmtk.SideMeta.history_frame", "Mmtk.SideMeta.setRawByte_pollutes_witness"]
+                "Mmtk.SideMeta.history_frame", "Mmtk.SideMeta.setRawByte_pollutes_witness"] + c20_race.THEOREMS
     component = "side"
     relation = "Mmtk.SideMeta.{load, store, cmpxchg, fetch*} ≙ util::metadata::side_metadata::SideMetadataSpec accessors"
     assumptions = ["64-bit target: every spec is contiguous; log_num_of_bits ≤ 6, log_num_of_bits ≤ log_bytes_in_region + 3",
                    "values passed fit the field (API precondition `assert_value_type`; wider values are the malformed stream)",
-                   "sequential semantics of the atomic accessors (interleavings are C18's subject)",
+                   "every atomic accessor is one atomic step (its internal CAS loop is not modelled): any interleaving is a list of calls "
+                   "(history_refines); with one owner per field every owner sees its own sequential history "
+                   "(concurrent_owner_view) — tied to the code by real-thread races on adjacent fields (`side race`), which sample "
+                   "schedules",
                    "T = u8 for fields of ≤ 8 bits, u16/u32/u64 otherwise (what assert_value_type demands)",
                    "metadata addresses do not overflow 2^64; `set_raw_byte_atomic` is excluded (documented to corrupt neighbours)"]
     rule = ("histories of 1..30 accessor calls on a private window of real side metadata: all 7 widths, region sizes "
